@@ -242,7 +242,7 @@ fn xmlser(inp: &str) {
 /// text chunks (`hchunk <hex>`) through the real html5ever parser (document, or fragment with `context <ns hex> <local hex>`)
 /// into an RcDom; prints the tree in the canonical line form the model DOM of engine M is dumped in
 fn htmldoc(inp: &str) {
-    use html5ever::driver::{parse_document, parse_fragment, ParseOpts};
+    use html5ever::driver::{parse_document, ParseOpts};
     use html5ever::tree_builder::{QuirksMode, TreeBuilderOpts};
     use html5ever::{Attribute, LocalName, Namespace, QualName};
     use markup5ever_rcdom::{Handle, NodeData};
@@ -258,12 +258,16 @@ fn htmldoc(inp: &str) {
     let mut context: Option<QualName> = None;
     let mut cattrs: Vec<Attribute> = vec![];
     let mut form = true;
+    let mut with_form = false;
+    let mut detach: Vec<(usize, usize)> = vec![];
     for l in inp.lines() {
         let f: Vec<&str> = l.split(' ').collect();
         match f[0] {
             "scripting" => tbo.scripting_enabled = f[1] == "1",
             "srcdoc" => tbo.iframe_srcdoc = f[1] == "1",
             "ctxscripting" => form = f[1] == "1",
+            "form" => with_form = f[1] == "1",
+            "detach" => detach.push((f[1].parse().unwrap(), f[2].parse().unwrap())),
             "quirks" => {
                 tbo.quirks_mode = match f[1] {
                     "Quirks" => QuirksMode::Quirks,
@@ -280,9 +284,19 @@ fn htmldoc(inp: &str) {
     let opts = ParseOpts { tree_builder: tbo, ..Default::default() };
     // the parse runs over the monitoring sink (contract + trace bookkeeping); the tree is RcDom's
     let p = match context {
-        Some(c) => parse_fragment(monitor::Mon::new(), opts, c, cattrs, form),
+        Some(c) => {
+            let sink = monitor::Mon::new();
+            let ctx = html5ever::tree_builder::create_element(&sink, c, cattrs);
+            let fe = if with_form {
+                Some(html5ever::tree_builder::create_element(&sink, QualName::new(None, Namespace::from("http://www.w3.org/1999/xhtml"), LocalName::from("form")), vec![]))
+            } else {
+                None
+            };
+            html5ever::driver::parse_fragment_for_element(sink, opts, ctx, form, fe)
+        },
         None => parse_document(monitor::Mon::new(), opts),
     };
+    let mut scripts = 0usize;
     let pause = |p: &html5ever::driver::Parser<monitor::Mon>, kind: &str| {
         let col = monitor::Collect(std::cell::RefCell::new(vec![]));
         p.tokenizer.sink.trace_handles(&col);
@@ -295,7 +309,15 @@ fn htmldoc(inp: &str) {
         loop {
             match p.tokenizer.feed(&p.input_buffer) {
                 TokenizerResult::Done => break,
-                TokenizerResult::Script(_) => pause(&p, "Script result"),
+                TokenizerResult::Script(_) => {
+                    scripts += 1;
+                    for (pk, ei) in &detach {
+                        if *pk == scripts {
+                            p.tokenizer.sink.sink.script_detach(*ei);
+                        }
+                    }
+                    pause(&p, "Script result")
+                },
                 TokenizerResult::EncodingIndicator(_) => pause(&p, "EncodingIndicator result"),
             }
         }
@@ -481,7 +503,7 @@ fn main() {
             "inject" => inject = Some(String::from_utf8(unhex(v)).unwrap()),
             "content" => content = String::from_utf8(unhex(v)).unwrap(),
             "bytes" => raw_chunks.push(unhex(v)),
-            "ev" | "tag" | "scripting" | "srcdoc" | "quirks" | "context" | "cattr" | "hchunk" | "ctxscripting" => {},
+            "ev" | "tag" | "scripting" | "srcdoc" | "quirks" | "context" | "cattr" | "hchunk" | "ctxscripting" | "form" | "detach" => {},
             "" => {},
             x => panic!("directive {x}"),
         }
